@@ -93,21 +93,25 @@ async def process_resource_event(
             posting.event_queue_var.set(event_queue)  # till the end of this object's task.
 
             # [Pre-]populate the indices. This must be lightweight.
-            await indexing.index_resource(
-                registry=registry,
-                indexers=indexers,
-                settings=settings,
-                resource=resource,
-                raw_event=raw_event,
-                body=body,
-                memo=memory.memo,
-                memory=memory.indexing_memory,
-                logger=terse_logger,
-            )
+            try:
+                await indexing.index_resource(
+                    registry=registry,
+                    indexers=indexers,
+                    settings=settings,
+                    resource=resource,
+                    raw_event=raw_event,
+                    body=body,
+                    memo=memory.memo,
+                    memory=memory.indexing_memory,
+                    logger=terse_logger,
+                )
+            finally:
+                # Whatever happened to the indexing of this object (e.g. its filter callbacks failed),
+                # it must not block the readiness of the whole operator forever: report it as seen.
+                if operator_indexed is not None and resource_indexed is not None:
+                    await operator_indexed.drop_toggle(resource_indexed)
 
             # Wait for all other individual resources and all other resource kinds' lists to finish.
-            if operator_indexed is not None and resource_indexed is not None:
-                await operator_indexed.drop_toggle(resource_indexed)
             if operator_indexed is not None:
                 await operator_indexed.wait_for(True)  # other resource kinds & objects.
 
